@@ -25,23 +25,27 @@ pub mod strs;
 #[cfg(kani)]
 pub mod hstubs;
 pub mod c01_flags;
+pub mod c01_reader;
 pub mod c02_jumps;
 pub mod qk;
 pub mod c04_action;
 pub mod c04_map;
 pub mod c09_kernels;
 pub mod c13_merge;
+pub mod c16_code;
 pub mod c18_desc;
 pub mod c18_names;
 
 pub fn all() -> Vec<(&'static str, fn())> {
 	let mut v = Vec::new();
 	v.extend_from_slice(c01_flags::LIST);
+	v.extend_from_slice(c01_reader::LIST);
 	v.extend_from_slice(c02_jumps::LIST);
 	v.extend_from_slice(c04_action::LIST);
 	v.extend_from_slice(c04_map::LIST);
 	v.extend_from_slice(c09_kernels::LIST);
 	v.extend_from_slice(c13_merge::LIST);
+	v.extend_from_slice(c16_code::LIST);
 	v.extend_from_slice(c18_desc::LIST);
 	v.extend_from_slice(c18_names::LIST);
 	v
